@@ -33,6 +33,11 @@ def convert_flux(nu, flux, target_unit, distance=None):
 
     curr_unit = flux.unit
 
+    # Work in double precision: with single-precision files the intermediate
+    # values (e.g. F_nu in cgs) can underflow
+    flux = flux.astype(np.float64)
+    nu = nu.astype(np.float64)
+
     if curr_unit.is_equivalent(u.erg / u.s):
         flux = flux / distance ** 2
     elif curr_unit.is_equivalent(u.Jy):
